@@ -290,3 +290,59 @@ def qm_error_edges(body):
 def control_dependence_no_errors(body):
     """control dependence with the error exits of `?` removed: 'assuming no callee fails'"""
     return cfg.control_dependence(body, avoid_edges=qm_error_edges(body))
+
+
+EMPTY_TESTS = {"std::vec::Vec::is_empty", "std::collections::BTreeSet::is_empty", "std::collections::HashSet::is_empty",
+               "core::slice::is_empty", "std::collections::BTreeMap::is_empty", "std::collections::HashMap::is_empty",
+               "std::string::String::is_empty", "core::str::is_empty"}
+
+
+def success_defs(body):
+    """blocks that define the return place with something that is not Err(..):
+    Ok(..) aggregates and calls writing _0 directly (tail delegation)"""
+    out = []
+    for bi, si, p, rv, line, mac in body.assigns():
+        if p == [0]:
+            if rv[0] == "agg" and rv[2] == "std::result::Result" and rv[3] == "Err":
+                continue
+            out.append((bi, line, "assign"))
+    for c in body.calls():
+        if c.dest == [0]:
+            if c.names() & {"std::ops::FromResidual::from_residual"}:
+                continue
+            out.append((c.bb, c.line, "call:" + (c.path or "?")))
+    return out
+
+
+def emptiness_gate(ctx, facts, body, rule, checker, key, what):
+    """R-gate: every success definition of `body` is dominated by a call of `checker`, and reachable only through
+    the `is empty` edge of an emptiness test of (a value derived from) its result.  Returns (call, derived locals)"""
+    cs = body.calls_to(checker)
+    if len(cs) != 1:
+        raise AnchorMissing("%s: expected exactly one call of %s, found %d" % (short(body.path), short(checker), len(cs)))
+    c = cs[0]
+    derived = forward_derived(body, [c.dest[0]])
+    dom = cfg.Dom(body)
+    gates = []
+    for d in range(len(body.blocks)):
+        k = classify_switch(body, d)
+        if k and k[0] == "call" and (k[1].names() & EMPTY_TESTS):
+            a0 = k[1].args[0]
+            if a0[0] in ("c", "m") and a0[1][0] in derived:
+                # is_empty()==true edge: non-zero unless negated
+                vals = {v for v, _t in body.switch_edges(d) if v != 0} if not k[2] else {0}
+                gates.append((d, vals))
+    succ = success_defs(body)
+    if not succ:
+        raise AnchorMissing("%s has no success return" % short(body.path))
+    for sb, line, kind in succ:
+        ok = dom.dominates(c.bb, sb) and any(dom.dominates(d, sb) and only_via_edge(body, d, vals, sb) for d, vals in gates)
+        ctx.check(ok, rule, "%s|%s" % (key, kind.split("::")[-1]),
+                  "success (%s, bb%d) is dominated by %s and reachable only through the `is empty` edge of its result"
+                  % (kind, sb, short(checker)),
+                  "success (%s) is reachable without passing the emptiness test of %s: %s" % (kind, short(checker), what),
+                  where(body, line))
+    return c, derived, gates
+
+
+from ..dataflow import forward_derived  # noqa: E402
